@@ -7,6 +7,7 @@ package atroll
 import (
 	"encoding/hex"
 	"fmt"
+	"math"
 	"sort"
 	"strconv"
 	"strings"
@@ -74,6 +75,8 @@ type Col struct {
 	Typ      string `json:"typ"` // BIGINT | INT | VARCHAR
 	Nullable bool   `json:"nullable"`
 	AutoInc  bool   `json:"auto_inc,omitempty"`
+	Big      bool   `json:"big,omitempty"` // key: consecutive values above 2^53
+	Num      bool   `json:"num,omitempty"` // key: character strings that read as numbers
 }
 
 type Table struct {
@@ -395,6 +398,20 @@ func (c *Cond) match(t *Table, r Row) bool {
 // apply evaluates the statement on the shadow state; returns the effects (an
 // upsert yields an insert or an update effect) or ok=false when the statement
 // is outside what the shadow predicts.
+// nextAuto: the smallest generated key 1 + k*step that is >= from (auto_increment_offset 1)
+func nextAuto(from, step int64) int64 {
+	if step <= 1 || from < 1 {
+		return from
+	}
+	if r := (from - 1) % step; r != 0 {
+		return from + step - r
+	}
+	return from
+}
+
+// autoStep: auto_increment_increment of the plan being evaluated (set by runShadow; the harness is sequential)
+var autoStep int64 = 1
+
 func (s *Stmt) apply(t *Table, st *TabState, auto *int64) ([]Effect, bool) {
 	switch s.Kind {
 	case "insert":
@@ -402,8 +419,9 @@ func (s *Stmt) apply(t *Table, st *TabState, auto *int64) ([]Effect, bool) {
 		for _, r := range s.Rows {
 			row := Row{Key: append([]Val{}, r.Key...), Vals: append([]Val{}, r.Vals...)}
 			if len(row.Key) == 0 {
-				row.Key = []Val{vInt(*auto)}
-				*auto++
+				gen := nextAuto(*auto, autoStep)
+				row.Key = []Val{vInt(gen)}
+				*auto = gen + 1
 			} else if len(t.Keys) == 1 && t.Keys[0].AutoInc && row.Key[0].int() >= *auto {
 				*auto = row.Key[0].int() + 1
 			}
@@ -457,6 +475,11 @@ func (s *Stmt) apply(t *Table, st *TabState, auto *int64) ([]Effect, bool) {
 				case "inc":
 					if nv[it.Col].K == "int" {
 						nv[it.Col] = vInt(nv[it.Col].int() + it.N)
+					}
+				case "incd": // DECIMAL(10,2): + N hundredths, exactly
+					if nv[it.Col].K == "dec" {
+						f, _ := strconv.ParseFloat(nv[it.Col].V, 64)
+						nv[it.Col] = vDec(float64(int64(math.Round(f*100))+it.N) / 100)
 					}
 				}
 				out[it.Col] = nv[it.Col]
